@@ -111,6 +111,11 @@ pub fn start_watchdog(property: &str, tier: Tier, own_violation: bool) {
     monitor::watch::start(
         LIMIT,
         Box::new(move |context, secs| {
+            if std::env::args().any(|a| a == "--child") {
+                // deep-payload child of C12: the parent turns this exit code into the violation (it knows the case)
+                println!("CHILD-STUCK {secs}");
+                std::process::exit(4);
+            }
             if prop == "C12" || own_violation {
                 let ctx = Ctx::new(&prop, tier);
                 let mut acc = vcore::evidence::Acc::new();
